@@ -85,6 +85,11 @@ func drawAlgoCfg(t *Tape, names []string, wraps []string) algoCfg {
 			c.Max = []int{1000, 1005, 2000, 999}[t.Intn(4, "max-boundary")]
 		}
 		c.Measure = []string{"", "", "", "minimum", "single"}[t.Intn(5, "vegas-measure")]
+		if !boundary && t.Chance(6, "vegas-initial-left-to-default") {
+			// the constructor is given "no initial limit" (0 / -1) together with a small maximum; the estimate may
+			// not start above that maximum (Initial only serves as the lenient upper bound of the oracles)
+			c.Ctor, c.Initial, c.Max = []string{"initial-0", "initial-neg"}[t.Intn(2, "initial-arg")], 20, 1+t.Intn(30, "small-max")
+		}
 	case "gradient":
 		c.Min = 1 + t.Intn(c.Initial, "min")
 		c.Max = c.Initial + t.Intn(1200, "max-above")
@@ -198,6 +203,10 @@ func buildAlgo(c algoCfg, withRegistry bool) (*algo, error) {
 		}
 		l := limit.NewVegasLimitWithRegistry(nm("vegas"), c.Initial, meas, c.Max, c.Smoothing, nil, nil, nil, nil, nil, c.ProbeMult, lg, reg)
 		switch c.Ctor {
+		case "initial-0":
+			l = limit.NewVegasLimitWithRegistry(nm("vegas"), 0, meas, c.Max, c.Smoothing, nil, nil, nil, nil, nil, c.ProbeMult, lg, reg)
+		case "initial-neg":
+			l = limit.NewVegasLimitWithRegistry(nm("vegas"), -1, meas, c.Max, c.Smoothing, nil, nil, nil, nil, nil, c.ProbeMult, lg, reg)
 		case "default":
 			l = limit.NewDefaultVegasLimit(nm("vegas"), lg, reg)
 		case "default-with-limit":
@@ -205,6 +214,9 @@ func buildAlgo(c algoCfg, withRegistry bool) (*algo, error) {
 		}
 		a.Inner = l
 		a.Lo, a.Hi = 1, maxInt(c.Max, c.Initial)
+		if c.Ctor == "initial-0" || c.Ctor == "initial-neg" {
+			a.Hi = c.Max // no initial value was configured that could be larger than the maximum
+		}
 		a.NoLoad = l.RTTNoLoad
 	case "gradient":
 		var qf func(int) int
